@@ -435,6 +435,41 @@ def body_C08(ctx):
                                 "violation); nested spawn macros to depth 3 with expected names <caller>_join_<branch>")
 
 
+def body_C14(ctx):
+    import roundtrip as R
+    rng = ctx.rng
+    progs = R.triple_progs(5 if ctx.quick() else 1) + [R.random_prog(rng) for _ in range(1500 if ctx.quick() else 20000)]
+    reals, bad = R.run(ctx, progs, kinds=G.KINDS)
+    ctx.k1_reals += reals[:3]
+    for r in reals:
+        ctx.dist["roundtrip:" + (r.parse if r.parse == "ok" else "rejected")] += 1
+        if r.parse == "ok":
+            ctx.shapes.add(struct_shape(r.structure))
+    seen = set()
+    for (p, r, exp) in sorted(bad, key=lambda x: len(x[0].render())):
+        sig = "reject" if r.parse != "ok" else "missplit"
+        if sig in seen:
+            continue
+        seen.add(sig)
+        ctx.out.violation({"macro_kind": r.kind, "source": p.render(), "real_parse": r.parse,
+                           "real_structure": r.structure[:1500], "intended_structure": exp[:1500],
+                           "what": ("a program whose operands have no top-level split point was rejected" if r.parse != "ok" else
+                                    "the parser split the program differently from how it was written (operators / operands reordered)")},
+                          found_input=True, signature=None)
+    # the model's generator on these programs as well
+    n, diffs = k1.compare_gen(reals)
+    ctx.k1_compared += n
+    if diffs:
+        ctx.k1_diffs += diffs
+        ctx.broken.append(("K1 generator correspondence (round-trip programs)", [d.to_json() for d in diffs[:3]]))
+    # the determiner table model vs the real check_input (longest documented operator wins)
+    table_probes(ctx)
+    ctx.out.coverage["rule"] = ("structured programs (22 operators, ~, >>>/<<<, let, handlers at any position) over 39 adversarial operand "
+                                "shapes (closure return types, turbofish, generic `>>`, look-alikes inside parentheses/brackets/braces/macro "
+                                "calls/literals), rendered to source and parsed by the real parser: the dumped structure must equal the one "
+                                "rendered from; every (operator, operand, following operator) triple; determiner probes (17k) model vs real")
+
+
 def body_C04(ctx):
     import itertools
     import k2
@@ -798,6 +833,7 @@ PROPS = {
     "C12": ("JoinModel.Props.C12", body_C12),
     "C13": ("JoinModel.Props.C13", body_C13),
     "C18": ("JoinModel.Props.C18", body_C18),
+    "C14": ("JoinModel.Props.C01", body_C14),
     "C15": ("JoinModel.Props.C15", body_C15),
     "C05": ("JoinModel.Props.C05", body_C05),
     "C07": ("JoinModel.Props.C07", body_C07),
